@@ -81,12 +81,14 @@ def build_region(s):
     import regions as R
     sky = s['sky']
 
+    attrs = s.get('attrs') or {}
+
     def pt(p):
-        return SkyCoord(p[0], p[1], unit='deg', frame=s['frame']) if sky else R.PixCoord(p[0], p[1])
+        return SkyCoord(p[0], p[1], unit='deg', frame=s['frame'], **attrs) if sky else R.PixCoord(p[0], p[1])
 
     def pts(ps):
         if sky:
-            return SkyCoord([p[0] for p in ps], [p[1] for p in ps], unit='deg', frame=s['frame'])
+            return SkyCoord([p[0] for p in ps], [p[1] for p in ps], unit='deg', frame=s['frame'], **attrs)
         return R.PixCoord([p[0] for p in ps], [p[1] for p in ps])
 
     def sz(v):
@@ -166,16 +168,24 @@ def wreg_of(region, coordsys, radunit):
     kind = kind_of(region)
     image = coordsys in ('image', 'physical')
     pts = []
+    kept = []
     frame = frame_transform_graph.lookup_name(coordsys) if sky else None
     for p in points_of(region, kind):
         if sky:
             if frame is None:
                 pts.append(['0', '0'])
+                kept.append(['0', '0'])
             else:
-                pts.append([frac(float(Angle(p.transform_to(frame).spherical.lon).value)),
-                            frac(float(Angle(p.transform_to(frame).spherical.lat).value))])
+                # `pts`: in the frame the CRTF name denotes (default attributes: J2000, B1950, ...);
+                # `pts_kept`: what transform_to(FrameClass) gives, i.e. with the source's own equinox / obstime
+                # carried into the target frame (F34).  Equal for coordinates with default attributes.
+                t = p.transform_to(frame(), merge_attributes=False)
+                pts.append([frac(float(Angle(t.spherical.lon).value)), frac(float(Angle(t.spherical.lat).value))])
+                k = p.transform_to(frame)
+                kept.append([frac(float(Angle(k.spherical.lon).value)), frac(float(Angle(k.spherical.lat).value))])
         else:
             pts.append([frac(float(p.x)), frac(float(p.y))])
+            kept.append([frac(float(p.x)), frac(float(p.y))])
     sizes = []
     for a in ATTRS.get(kind, []):
         v = getattr(region, a)
@@ -189,7 +199,7 @@ def wreg_of(region, coordsys, radunit):
     angle = None
     if hasattr(region, 'angle') and kind != 'compound':
         angle = frac(float(u.Quantity(region.angle).to('deg').value))
-    return {'kind': kind, 'sky': sky, 'pts': pts, 'sizes': sizes, 'angle': angle,
+    return {'kind': kind, 'sky': sky, 'pts': pts, 'pts_kept': kept, 'sizes': sizes, 'angle': angle,
             'text': getattr(region, 'text', '') if kind == 'text' else '',
             'meta': enc_meta(region.meta) if kind != 'compound' else [],
             'visual': enc_meta(region.visual) if kind != 'compound' else []}
@@ -302,6 +312,9 @@ def qtable_for(strings):
 
 # ------------------------------------------------------------------ write-side generator
 
+FRAME_ATTRS = {'fk5': [{'equinox': 'J1975'}, {'equinox': 'J2010.5'}, {'equinox': 'B1950'}],
+               'fk4': [{'equinox': 'B1975'}, {'equinox': 'B1950', 'obstime': 'J1990'}, {'equinox': 'B1975', 'obstime': 'J1990'}],
+               'geocentrictrueecliptic': [{'equinox': 'J1975'}, {'obstime': 'J1990'}, {'equinox': 'J1975', 'obstime': 'J2010'}]}
 RADUNITS = {'deg': (0.01, 5.0, 3), 'arcmin': (0.5, 300.0, 1), 'arcsec': (1.0, 5000.0, 0), 'rad': (0.001, 0.1, 4)}
 WRITE_CLASSES = ['circle', 'circleannulus', 'ellipse', 'rectangle', 'polygon', 'line', 'text', 'point']
 
@@ -387,6 +400,9 @@ def gen_meta(rng, cls, sky):
 def gen_region(rng, cls, sky, frame, radunit, prec, tiny=False):
     import astropy.units as u
     s = {'cls': cls, 'sky': sky, 'frame': frame if sky else 'image', 'sizes': [], 'angle': None, 'text': ''}
+    if sky and frame in FRAME_ATTRS and rng.random() < 0.12:
+        # a coordinate in the same frame family with its own equinox / obstime
+        s['attrs'] = dict(rng.choice(FRAME_ATTRS[frame]))
 
     def pt():
         if sky:
@@ -486,8 +502,11 @@ def expected_inputs(case):
         e = {'cls': s['cls'], 'sky': s['sky']}
         try:
             if s['sky']:
-                c = SkyCoord([p[0] for p in s['pts']], [p[1] for p in s['pts']], unit='deg', frame=s['frame'])
-                c = c.transform_to(cs)
+                from astropy.coordinates import frame_transform_graph
+                c = SkyCoord([p[0] for p in s['pts']], [p[1] for p in s['pts']], unit='deg', frame=s['frame'],
+                             **(s.get('attrs') or {}))
+                # the frame a CRTF name denotes has its default attributes (J2000 = FK5 at equinox J2000, ...)
+                c = c.transform_to(frame_transform_graph.lookup_name(cs)(), merge_attributes=False)
                 e['pts'] = [[frac(float(a)), frac(float(b))] for a, b in
                             zip(c.spherical.lon.to_value(u.deg), c.spherical.lat.to_value(u.deg))]
                 e['sizes'] = [frac(float(u.Quantity(v[0], v[1]).to(ru).value)) for v in s['sizes']]
@@ -673,7 +692,8 @@ def oracle_write(case, real):
             if abs(Fraction(e['angle']) - Fraction(g['angle'][0])) > half + eps * 400 or g['angle'][1] != 'deg':
                 ok = False
         if not ok:
-            bad('geometry_off', f"region {i} {s['cls']}: expected {e} got pts={g['pts']} sizes={g['sizes']} angle={g['angle']}")
+            bad('geometry_off', f"region {i} {s['cls']}: expected {e} got pts={g['pts']} sizes={g['sizes']} angle={g['angle']}",
+                nondefault_attrs=bool(s.get('attrs')) and case['coordsys'] in FRAME_ATTRS, attrs=s.get('attrs'))
         im = meta_dict(s['meta'])
         iv = meta_dict(s['visual'])
         gm = {k: list(v.values())[0] for k, v in g['meta']}
@@ -1078,6 +1098,8 @@ class Check(PropertyCheck):
             if k == 'roundtrip_unreadable' and causes and causes[0] == fid:
                 return True
             return fid == 'F33' and k == 'valid_file_rejected' and bool(v.get('quote_pair'))
+        if fid == 'F34':
+            return k == 'geometry_off' and bool(v.get('nondefault_attrs'))
         if fid == 'F31':
             return k == 'meta_lost' and v.get('key') == 'labelcolor'
         if fid == 'F32':
